@@ -7,6 +7,7 @@ import (
 	"fmt"
 	"math/rand"
 	"net"
+	"os"
 	"strings"
 	"time"
 
@@ -170,6 +171,14 @@ func (orderEngine) Run(ctx *fw.Ctx, cs any) {
 			p.Gi = pkt.IP4("10.9.9.9")
 			job.Reqs = append(job.Reqs, ChainReq{Hex: hex.EncodeToString(p.Bytes()), RxIf: fakeIf, Peer: "10.9.9.9", Port: 67})
 		}
+		if os.Getenv("VERIF_NETNS") == "1" {
+			// a request answered at link level (no relay, no ciaddr, no broadcast flag): what is put on the
+			// wire by the raw-frame path must be the response returned last, too
+			p := pkt.Request4(0x8a, []byte{2, 0, 0, 0, 0, 8}, 1)
+			job.Reqs = append(job.Reqs, ChainReq{Hex: hex.EncodeToString(p.Bytes()), RxIfName: "ve0", Peer: "10.77.0.99", Port: 68})
+			job.Sniff = []string{"ve1", "vf1"}
+			job.FrameWaitUs = 20000
+		}
 	}
 	out := RunChain(job, ctx.Scratch, 60*time.Second)
 	desc := fmt.Sprintf("chain %v v6=%v both=%v yaml=%v other-protocol-lists=%q", c.Chain, c.V6, c.Both, c.YAML, c.OtherBad)
@@ -289,18 +298,37 @@ func (orderEngine) Run(ctx *fw.Ctx, cs any) {
 			lastNil = last.Behav == "stop-nil"
 			lastMark = last.MarkOut
 		}
+		dhcpFrames := 0
+		for _, f := range r.Frames {
+			fb, _ := hex.DecodeString(f.Hex)
+			if fr, err := pkt.ParseFrame(fb); err == nil && fr.IsIPv4UDP && fr.SrcPort == 67 {
+				dhcpFrames++
+			}
+		}
 		if lastNil {
 			ctx.Count("order.nil_final", 1)
-			if len(r.Caps) != 0 {
+			if len(r.Caps) != 0 || dhcpFrames != 0 {
 				ctx.Viol("C13", "sent-after-nil", "%s: the last handler returned a nil response, yet a datagram was sent", desc)
 			}
 			continue
 		}
-		if len(r.Caps) != 1 {
-			ctx.Viol("C13", "final-response-not-sent", "%s, request %d: the chain ended with a non-nil response; %d datagrams were sent, want 1", desc, ri, len(r.Caps))
+		var b []byte
+		nsent := len(r.Caps)
+		if nsent == 1 {
+			b, _ = hex.DecodeString(r.Caps[0].Hex)
+		}
+		for _, f := range r.Frames {
+			fb, _ := hex.DecodeString(f.Hex)
+			if fr, err := pkt.ParseFrame(fb); err == nil && fr.IsIPv4UDP && fr.SrcPort == 67 {
+				nsent++
+				b = fr.Payload
+				ctx.Count("order.sent_link_level", 1)
+			}
+		}
+		if nsent != 1 {
+			ctx.Viol("C13", "final-response-not-sent", "%s, request %d: the chain ended with a non-nil response; %d datagrams were sent, want 1", desc, ri, nsent)
 			continue
 		}
-		b, _ := hex.DecodeString(r.Caps[0].Hex)
 		var mark []byte
 		if c.V6 {
 			if _, inner, err := pkt.Unwrap6(b); err == nil {
